@@ -227,4 +227,27 @@ def holdsCats (items : List (String × String)) (obs : List (List String)) : Boo
 def holdsPairs (i : Input) (obs : List (String × String)) : Bool :=
   strictSorted (obs.map (·.1)) && obs.all (specPairs i).contains && (specPairs i).all obs.contains
 
+/-! ### the left-to-right glyph set (`classifyGlyphs(...)["LTR"]`), stated on the observed sets
+
+`s` = the observed set for one direction, `n` = the observed closure of the script-neutral glyphs.  A glyph counts as
+reachable when a substitution produces it from glyphs of the direction, where script-neutral glyphs (space,
+punctuation, digits, joiners) may take part in the rule's input or context. -/
+
+/-- every encoded glyph of the direction is in the set -/
+def dirSeeded (dir0 s : List String) : Bool := dir0.all (fun g => s.contains g)
+
+/-- whatever a rule produces from glyphs of the direction and neutral glyphs is of the direction (or neutral) -/
+def dirClosed (rules : List Rule) (s n : List String) : Bool :=
+  rules.all (fun r => !(r.need.all (fun g => s.contains g || n.contains g)) ||
+    r.out.all (fun g => s.contains g || n.contains g))
+
+/-- nothing else: every other member is produced by some applicable rule and is not a neutral glyph -/
+def dirGrounded (rules : List Rule) (dir0 s n : List String) : Bool :=
+  s.all (fun g => dir0.contains g || (!n.contains g &&
+    rules.any (fun r => r.out.contains g && r.need.all (fun h => s.contains h || n.contains h))))
+
+def holdsDirSet (rules : List Rule) (dir0 neutral0 s n : List String) : Bool :=
+  dirSeeded dir0 s && dirClosed rules s n && dirGrounded rules dir0 s n &&
+  dirSeeded neutral0 n && dirClosed rules n [] && dirGrounded rules neutral0 n []
+
 end Ufo2ft.C18
